@@ -117,6 +117,17 @@ fn main() {
         println!("{}", json!(outv));
         return;
     }
+    if fam == "warm" {
+        // `bin/setup`: make (or validate) the fixture pool and every sized registry the families use, from the tree as it is now
+        let w = world::World::load();
+        let mut sr = fam_c09::SizeRegs::new();
+        for size in 1..=8u32 {
+            sr.get(&w, size);
+        }
+        println!("{}", json!({"warm": true, "pool_writable": world::pool_writable(), "defs": w.defs.len()}));
+        world::cleanup_scratch();
+        return;
+    }
     if fam == "tails_child" {
         fam_c19::tails_child(&args[2], args[3].parse().unwrap());
         return;
@@ -204,4 +215,5 @@ fn main() {
     summary["seed"] = json!(seed);
     summary["unit_hooks"] = json!(cfg!(feature = "unit_hooks"));
     println!("{}", summary);
+    world::cleanup_scratch();
 }
